@@ -5,7 +5,7 @@ import GV.Model.HeaderSym
   implementation is `lead=<b>` (was the builder eligible for the slot — a VRF/threshold matter
   that belongs to C37/C38).
   op:  hdr <c|t> <useed> <slot> <blockNo> <spk> <maxEvo> <ocPeriod> <kesT> <seq> <ctx> <tamper>
-  out: lead=<b> ser=<b> valid=<b> errs=<check names> lkes=<1|0|e> lopc=<b>
+  out: lead=<b> ser=<b> valid=<b> lkes=<1|0|e> lopc=<b> errs=<check names>
   op:  blk <c|t> <useed> <slot> <spk> <ocPeriod> <kesT> <tamper… | seg <i> | flip <off> <bit>>
   out: lead=<b> dec=<b> vb=<1|0:kind>            (flip: lead=<b> vb=<b>)
 -/
@@ -126,7 +126,7 @@ def handleHdr (impl : String) (toks : List String) : Out :=
         let lk := match ledgerKes P vin spk with
           | none => "e" | some true => "1" | some false => "0"
         let lo := boolStr (ledgerOpCert P vin)
-        let model := s!"lead=1 ser=1 valid={boolStr errs.isEmpty} errs={es} lkes={lk} lopc={lo}"
+        let model := s!"lead=1 ser=1 valid={boolStr errs.isEmpty} lkes={lk} lopc={lo} errs={es}"
         -- the property's demand, from the op alone
         let cur := if spk = 0 then 0 else slot / spk
         let inWindow := spk ≠ 0 ∧ cur ≥ ocPeriod ∧ cur - ocPeriod < maxEvo
@@ -134,8 +134,12 @@ def handleHdr (impl : String) (toks : List String) : Out :=
         -- `kesSigOtherT` substitutes the key's genuine signature of another evolution: that is
         -- a tampering only when the builder's own signature was the right one for the slot
         let tampered := tamper ≠ "none" ∧ (tamper ≠ "kesSigOtherT" ∨ signerAtSlot)
+        -- before the certificate's start period nothing may pass: neither the header validator
+        -- nor the ledger's KES verification (which knows no upper end of the window)
+        let early := spk ≠ 0 ∧ cur < ocPeriod
         let spec :=
-          if ¬ inWindow then "lead=1 ser=1 valid=0 *"
+          if early then "lead=1 ser=1 valid=0 lkes=0 *||lead=1 ser=1 valid=0 lkes=e *"
+          else if ¬ inWindow then "lead=1 ser=1 valid=0 *"
           else if tampered then "lead=1 ser=1 valid=0 *"
           else if tamper ≠ "none" then "*"
           else if signerAtSlot ∧ (ctx = "ok" ∨ ctx = "reg") then "lead=1 ser=1 valid=1 *"
@@ -190,7 +194,8 @@ def handleBlk (impl : String) (toks : List String) : Out :=
           let signerAtSlot := cur ≥ ocPeriod ∧ cur - ocPeriod = kesT
           let tampered := tamper ≠ "none" ∧ (tamper ≠ "kesSigOtherT" ∨ signerAtSlot)
           let spec :=
-            if tampered then "lead=1 dec=0 vb=0*||lead=1 dec=1 vb=0*"
+            if cur < ocPeriod then "lead=1 dec=0 vb=0*||lead=1 dec=1 vb=0*"
+            else if tampered then "lead=1 dec=0 vb=0*||lead=1 dec=1 vb=0*"
             else if tamper = "none" ∧ signerAtSlot then "lead=1 dec=1 vb=1"
             else "*"
           { model := s!"lead=1 dec={boolStr dec} vb={vb}", spec := spec }
